@@ -18,6 +18,56 @@ CLAIMED = {
         design_ref="DESIGN.md §5 C01",
         note="Trusted: the projection (ids = creation rank, times = 4*t integers), TLC/TLAPS, the assumption that a pending event is not added twice.",
     ),
+    "C02": dict(
+        technique="TLA+ model checking (TLC) of DEVS.tla over all handler programs + trace conformance with the real float/int/Duration simulators",
+        category="model_checking",
+        text="DEVS.tla gives the sequential simulator semantics with lazily fixed handler programs; TLC checks exactly-once, order, clock "
+             "discipline and agreement with a big-step reference run for every program up to the bound; simulated behaviours are replayed on "
+             "the real DEVSSimulatorFloat/Int/Duration (request results, executed trace, clock, pending set, states compared) and recorded "
+             "runs of seeded random programs are validated against TraceDEVS.tla with all invariants evaluated at every step.",
+        design_ref="DESIGN.md §5 C02",
+        note="Trusted: projection (event identity = creation rank, times on the k/4 grid), quiescence wait on the run thread, TLC.",
+    ),
+    "C03": dict(
+        technique="TLA+ model checking (TLC) of DEVS.tla segmentations vs big-step reference + two-way conformance with pauses by rendezvous",
+        category="model_checking",
+        text="All sequences of start / run_up_to / run_up_to_including / step / pause commands up to the bound over all small programs: "
+             "bounded-run semantics, never beyond the end, resumability, and AgreesWithReference (segmented run = uninterrupted run); the "
+             "segmentations are replayed on the real simulators (stop() forced while the k-th handler runs) and random programs x random "
+             "segmentations are validated by TraceDEVS.tla.",
+        design_ref="DESIGN.md §5 C03",
+        note="Trusted: as C02; a pause is a stop() issued during a handler (no wall-clock sleeps).",
+    ),
+    "C05": dict(
+        technique="TLA+ model checking (TLC) of DEVS.tla with raising handlers (fault enumeration) + two-way conformance with injected faults",
+        category="model_checking",
+        text="Every handler may raise, under the continue and pause strategies and under start / bounded runs / step: the executed sequence "
+             "must equal the fault-free reference, a fault pause ends the segment right after the failing event and is resumable; replayed "
+             "with injected RuntimeErrors on the real simulators (LOG_AND_CONTINUE, WARN_AND_CONTINUE, WARN_AND_PAUSE) and validated from "
+             "recorded random runs.",
+        design_ref="DESIGN.md §5 C05",
+        note="Trusted: as C02; faults are exceptions raised at the end of a handler.",
+    ),
+    "C06": dict(
+        technique="TLA+ model checking (TLC) of DEVS.tla with repeated initialize after arbitrary histories + trace conformance incl. statistics digests",
+        category="model_checking",
+        text="Initialize after every prior history (never started, stepped, bounded run, paused, fault-paused, ended): fresh state, and each "
+             "replication executes the reference sequence of the lazily fixed program; replayed on real simulators whose model creates the "
+             "four Sim statistics in construct_model; recorded traces additionally run the same model on a brand-new simulator and "
+             "TraceDEVS.tla requires the statistics digest of every complete replication to equal the first one.",
+        design_ref="DESIGN.md §5 C06",
+        note="Trusted: as C02; statistics compared through all public getters as hex floats.",
+    ),
+    "C08": dict(
+        technique="TLA+ model checking (TLC) of PubSub.tla with re-entrant delivery stack + payload table + two-way trace conformance",
+        category="model_checking",
+        text="All subscribe / unsubscribe (4 forms) / fire / fire_timed histories with nested firing up to the bound: ExactlySnapshot "
+             "(delivery to exactly the subscribers at the moment of firing, once, in order); the 660-row constructor table of EventPayload.tla "
+             "is executed row by row; simulated behaviours are replayed with scripted re-entrant listeners and random histories validated by "
+             "TracePubSub.tla.",
+        design_ref="DESIGN.md §5 C08",
+        note="Trusted: projection (content tag = event id, scaled timestamps), listeners only use the public producer API.",
+    ),
 }
 
 NOT_APPLICABLE = {
